@@ -401,6 +401,46 @@ def source_uses_hardwired_variable(case: dict, failure: dict) -> bool:
     return False
 
 
+def equality_between_globals_in_aggregate(case: dict, failure: dict) -> bool:
+    """F-agg-eq: some aggregate element of the symmetry step's input holds an equality X = Y between two variables that
+    are both global in the statement"""
+    for stm in _prg(_before(case, failure)):
+        if stm.ast_type not in (ASTType.Rule, ASTType.Minimize):
+            continue
+        plain: set = set()
+        for lit in stm.body:
+            if lit.ast_type == ASTType.Literal and lit.atom.ast_type in (ASTType.SymbolicAtom, ASTType.Comparison):
+                plain.update(astutil.variables_in(lit))
+            elif lit.ast_type == ASTType.Literal and lit.atom.ast_type == ASTType.BodyAggregate:
+                for g in (lit.atom.left_guard, lit.atom.right_guard):
+                    if g is not None:
+                        plain.update(astutil.variables_in(g))
+        if stm.ast_type == ASTType.Rule:
+            plain.update(astutil.variables_in(stm.head))
+        for lit in stm.body:
+            if lit.ast_type != ASTType.Literal or lit.atom.ast_type != ASTType.BodyAggregate:
+                continue
+            for el in lit.atom.elements:
+                for a, b in _equalities(stm.update(body=list(el.condition)) if stm.ast_type == ASTType.Rule else stm.update(body=list(el.condition))):
+                    if getattr(a, "ast_type", None) == ASTType.Variable and getattr(b, "ast_type", None) == ASTType.Variable:
+                        if a.name in plain and b.name in plain and a.name != b.name:
+                            return True
+    return False
+
+
+def aggregate_uses_own_result(case: dict, failure: dict) -> bool:
+    """F-agg-self: an aggregate of the math step's input is assigned to a variable that occurs inside its own elements"""
+    for lit in _body_lits(_before(case, failure)):
+        if lit.ast_type == ASTType.Literal and lit.atom.ast_type == ASTType.BodyAggregate:
+            inner = set()
+            for el in lit.atom.elements:
+                inner.update(astutil.variables_in(el))
+            for g in (lit.atom.left_guard, lit.atom.right_guard):
+                if g is not None and g.term.ast_type == ASTType.Variable and g.term.name in inner:
+                    return True
+    return False
+
+
 def out_only_aux_collision(case: dict, failure: dict) -> bool:
     """F-outdecl (semantic face): OUT declares a predicate that does not occur in the source and the result defines exactly that predicate"""
     if case.get("OUT") in (None, "auto"):
@@ -464,6 +504,8 @@ TRIGGERS: dict[str, Callable[[dict, dict], bool]] = {
     "math_symbolic_constant": math_symbolic_constant,
     "domain_rule_antimonotone": domain_rule_antimonotone,
     "math_sumplus_negative_weight": math_sumplus_negative_weight,
+    "equality_between_globals_in_aggregate": equality_between_globals_in_aggregate,
+    "aggregate_uses_own_result": aggregate_uses_own_result,
     "variant_uses_hardwired_variable": variant_uses_hardwired_variable,
     "source_uses_hardwired_variable": source_uses_hardwired_variable,
     "symmetry_groups_of_different_size": symmetry_groups_of_different_size,
